@@ -1,4 +1,79 @@
-(* C10 — placeholder until lemmas/Traversals.v lands *)
-From PT Require Import Arena.
-Theorem C10_placeholder : True. Proof. exact I. Qed.
-Print Assumptions C10_placeholder.
+(* C10 — traversals and subtree listings enumerate exactly the subtree, in order.
+   Statements only; proofs in lemmas/Traversals.v.  Model: Arena.v (fuelled transcriptions of the recursive /
+   queue-based Rust functions); spec: Spec.v (pre, post, level, ino, rleaves on rose trees).
+   `Rep t p d i r` : slot i of arena t represents rose tree r; other slots of the arena (removed ones included)
+   are unconstrained, so the theorems hold from every start node of arenas containing removed slots. *)
+From Coq Require Import Permutation.
+From PT Require Import Arena Spec Traversals.
+
+Theorem C10_preorder : forall (L : Type) (t : @arena L) p d i r,
+  Rep t p d i r -> NoDup (ids r) -> preorder t i = Ok (pre r).
+Proof. exact @preorder_refines. Qed.
+Print Assumptions C10_preorder.
+
+Theorem C10_postorder : forall (L : Type) (t : @arena L) p d i r,
+  Rep t p d i r -> NoDup (ids r) -> postorder t i = Ok (post r).
+Proof. exact @postorder_refines. Qed.
+Print Assumptions C10_postorder.
+
+Theorem C10_levelorder : forall (L : Type) (t : @arena L) p d i r,
+  Rep t p d i r -> NoDup (ids r) -> levelorder t i = Ok (level r).
+Proof. exact @levelorder_refines. Qed.
+Print Assumptions C10_levelorder.
+
+Theorem C10_inorder_binary : forall (L : Type) (t : @arena L) p d i r,
+  Rep t p d i r -> NoDup (ids r) -> max_arity r <= 2 -> inorder t i = Ok (ino r).
+Proof. exact @inorder_refines_binary. Qed.
+Print Assumptions C10_inorder_binary.
+
+Theorem C10_inorder_refuses : forall (L : Type) (t : @arena L) p d i r,
+  Rep t p d i r -> NoDup (ids r) -> 2 < max_arity r -> inorder t i = Err IsNotBinary.
+Proof. exact @inorder_refuses. Qed.
+Print Assumptions C10_inorder_refuses.
+
+Theorem C10_subtree : forall (L : Type) (t : @arena L) p d i r,
+  Rep t p d i r -> NoDup (ids r) -> get_subtree t i = Ok (pre r).
+Proof. exact @get_subtree_refines. Qed.
+Print Assumptions C10_subtree.
+
+Theorem C10_descendants : forall (L : Type) (t : @arena L) p d i r,
+  Rep t p d i r -> NoDup (ids r) -> get_descendants t i = Ok (tl (pre r)).
+Proof. exact @get_descendants_refines. Qed.
+Print Assumptions C10_descendants.
+
+Theorem C10_subtree_leaves : forall (L : Type) (t : @arena L) p d i r,
+  Rep t p d i r -> NoDup (ids r) -> get_subtree_leaves t i = Ok (rleaves r).
+Proof. exact @get_subtree_leaves_refines. Qed.
+Print Assumptions C10_subtree_leaves.
+
+Theorem C10_removed_start : forall (L : Type) (t : @arena L) (i : nat),
+  (forall n : node, nth_error t i = Some n -> ndeleted n = true) ->
+  preorder t i = Err NodeNotFound /\ postorder t i = Err NodeNotFound /\
+  inorder t i = Err NodeNotFound /\ levelorder t i = Err NodeNotFound.
+Proof. exact @traversal_dead_start. Qed.
+Print Assumptions C10_removed_start.
+
+(* spec level: each traversal lists every node of the subtree exactly once (permutations of one another; with
+   NoDup (ids r) "exactly once"), parents before children in pre-order, children before parents in post-order,
+   level order by non-decreasing depth *)
+Theorem C10_pre_post_perm : forall r, Permutation (pre r) (post r).
+Proof. exact pre_post_perm. Qed.
+Print Assumptions C10_pre_post_perm.
+Theorem C10_pre_level_perm : forall r, Permutation (pre r) (level r).
+Proof. exact pre_level_perm. Qed.
+Print Assumptions C10_pre_level_perm.
+Theorem C10_pre_parent_first : forall r i cs c,
+  subtree (RT i cs) r -> In c cs -> exists l1 l2 l3, pre r = l1 ++ i :: l2 ++ rid c :: l3.
+Proof. exact pre_parent_before_child. Qed.
+Print Assumptions C10_pre_parent_first.
+Theorem C10_post_child_first : forall r i cs c,
+  subtree (RT i cs) r -> In c cs -> exists l1 l2 l3, post r = l1 ++ rid c :: l2 ++ i :: l3.
+Proof. exact post_child_before_parent. Qed.
+Print Assumptions C10_post_child_first.
+Theorem C10_level_by_depth : forall r l1 x l2 y l3, NoDup (ids r) ->
+  level r = l1 ++ x :: l2 ++ y :: l3 ->
+  exists dx dy, rdepth_of x r = Some dx /\ rdepth_of y r = Some dy /\ dx <= dy.
+Proof. exact level_depth_monotone. Qed.
+Print Assumptions C10_level_by_depth.
+(* C10_leaves_partial: whole-tree get_leaves lists the leaves in ARENA order (a permutation of rleaves of the
+   root's tree); stated and tested by the correspondence check, not yet a theorem. *)
